@@ -137,5 +137,14 @@ CHECKS["C09"] = {
     "quick": {"checks": 150, "timeout": 1500, "env": {"VERIF_C09_ABANDON_REPS": 60}},
     "thorough": {"checks": 4000, "timeout": 3400, "shards": 8, "env": {"VERIF_C09_ABANDON_REPS": 2000}},
 }
+CHECKS["C10"] = {
+    "pkg": "./props/c10",
+    "level": "exploration",
+    "technique": "model-based property testing (rapid) with scripted RFC 3161 / legacy timestamp authorities; metamorphic token grafting; validity-window sweep",
+    "level_text": "Three RFC 3161 and two legacy Microsoft authorities (harness encoder, cross-validated with openssl ts) each get one drawn behaviour per case (valid, granted-with-mods, wrong nonce, nonce omitted, wrong imprint, wrong imprint algorithm, rejection, waiting, granted without token, bad token signature, HTTP 500, garbage, truncated, wrong content type, hang until timeout); 14 timestamp-capable signature types, all keys, several digests are signed through relic's configured timestamper. Model: the token of the first authority whose reply is acceptable per the statement is attached (identified by its certificate and attested time), earlier authorities were contacted, later ones were not; no acceptable reply => signing fails and the input is untouched; no-timestamp => no request. At library level a token over another signature value, a token with a bad signature, or an altered host signature must fail verification while the matching token verifies including its chain. Signer certificates with drawn lifetimes and attested times (inside, outside, and within one second of both edges) must verify iff the attested time lies inside the lifetime, or, without a timestamp, iff the current time does.",
+    "level_note": "Trusts the harness TSA encoder (its own tests validate it with openssl ts -verify). The memcached timestamp cache and the rate limiter are not exercised. Hang behaviours are rare because each costs the 1 s client timeout.",
+    "quick": {"checks": 150, "timeout": 1500},
+    "thorough": {"checks": 4000, "timeout": 3400, "shards": 8},
+}
 for _pid in CHECKS:
     NOT_APPLICABLE.pop(_pid, None)
